@@ -268,7 +268,10 @@ def rule_evaluate(ctx: Ctx):
         tn = [e.id for e in n.target.elts] if isinstance(n.target, ast.Tuple) else []
         for st in n.body:
             if isinstance(st, ast.Assign) and isinstance(st.value, ast.Call) and ast.unparse(st.value.func).endswith("mean"):
-                ok = len(tn) == 2 and ast.unparse(st.value.args[0]) == tn[1] and ast.unparse(st.targets[0]).endswith(f"[{tn[0]}]")
+                # np.mean(x) is normalised to x.mean() (canon.py): the averaged list is the receiver or the first argument
+                f_ = st.value.func
+                arg0 = ast.unparse(st.value.args[0]) if st.value.args else (ast.unparse(f_.value) if isinstance(f_, ast.Attribute) else "?")
+                ok = len(tn) == 2 and arg0 == tn[1] and ast.unparse(st.targets[0]).endswith(f"[{tn[0]}]")
                 ctx.check(ok, "MC-4", fi, st, "mean of its own samples" + (" (per action)" if isinstance(st.targets[0], ast.Subscript) and isinstance(st.targets[0].value, ast.Subscript) else " (per state)"), "", f"`{norm(st)}` averages samples of a different key")
             if isinstance(st, ast.AugAssign) and isinstance(st.value, ast.BinOp) and isinstance(st.value.op, ast.Div):
                 ok = ast.unparse(st.value.right) == "n_simulations" and ast.unparse(st.value.left) == f"len({tn[1]})" if len(tn) == 2 else None
